@@ -260,6 +260,24 @@ impl<'a> SendLastStateProofProcess<'a> {
                         };
                         // last_headers from previous prove state are empty
                         // iff the chain only has 1 block after MMR enabled.
+                        // The request may start from a remembered header before the previous
+                        // last header, then the new last headers overlap the old ones (and
+                        // replace them after a fork): only the old headers which the new
+                        // ones extend could be kept.
+                        let old_last_headers = match new_last_headers.first() {
+                            Some(first) => {
+                                let count = old_last_headers
+                                    .iter()
+                                    .take_while(|header| header.number() < first.number())
+                                    .count();
+                                if count > 0 && old_last_headers[count - 1].is_parent_of(first) {
+                                    &old_last_headers[..count]
+                                } else {
+                                    &old_last_headers[..0]
+                                }
+                            }
+                            None => old_last_headers,
+                        };
                         if old_last_headers.is_empty() {
                             new_last_headers
                         } else {
